@@ -614,6 +614,28 @@ func indexDischarged(w *World, info *types.Info, f *FuncInfo, ix *ast.IndexExpr,
 				return fld == m.input
 			}
 			guarded := w.dominatedBy(info, ix, nil, func(cond ast.Expr, truth bool) bool {
+				// a one-line predicate of the lexer on the same receiver: func (l *Lexer) atEnd() bool { return l.readPosition >= len(l.input) }
+				if pc, isCall := unparen(cond).(*ast.CallExpr); isCall && len(pc.Args) == 0 {
+					if g := w.FuncOf(calleeOf(info, pc)); g != nil && g.Rel == "lexer" && len(g.Decl.Body.List) == 1 {
+						if ret, isRet := g.Decl.Body.List[0].(*ast.ReturnStmt); isRet && len(ret.Results) == 1 {
+							cond = ret.Results[0]
+						}
+					}
+				}
+				for {
+					u, isNot := unparen(cond).(*ast.UnaryExpr)
+					if !isNot || u.Op != token.NOT {
+						break
+					}
+					cond, truth = u.X, !truth
+					if pc, isCall := unparen(cond).(*ast.CallExpr); isCall && len(pc.Args) == 0 {
+						if g := w.FuncOf(calleeOf(info, pc)); g != nil && g.Rel == "lexer" && len(g.Decl.Body.List) == 1 {
+							if ret, isRet := g.Decl.Body.List[0].(*ast.ReturnStmt); isRet && len(ret.Results) == 1 {
+								cond = ret.Results[0]
+							}
+						}
+					}
+				}
 				be, ok := unparen(cond).(*ast.BinaryExpr)
 				if !ok {
 					return false
@@ -632,7 +654,14 @@ func indexDischarged(w *World, info *types.Info, f *FuncInfo, ix *ast.IndexExpr,
 						op = token.LEQ
 					}
 				}
-				if !isLenInput(y) || !sameObjExpr(info, x, ix.Index) {
+				sameCursor := sameObjExpr(info, x, ix.Index)
+				if !sameCursor {
+					// the same field of the receiver, named in a predicate method of the lexer
+					_, f1 := fieldOf(info, x)
+					_, f2 := fieldOf(info, ix.Index)
+					sameCursor = f1 != nil && f1 == f2
+				}
+				if !isLenInput(y) || !sameCursor {
 					return false
 				}
 				return (op == token.LSS && truth) || (op == token.GEQ && !truth)
@@ -645,7 +674,16 @@ func indexDischarged(w *World, info *types.Info, f *FuncInfo, ix *ast.IndexExpr,
 			// Lower bound: the constructor has called readChar, so readPosition >= 1 and position >= 0; anything
 			// beyond that (readPosition-2, position-1, ...) needs a dominating test of the same field.
 			// ... also when the index goes through a local: prev := readPosition - 2; if prev < 0 { prev = readPosition - 1 }
-			if _, isLocal := unparen(ix.Index).(*ast.Ident); isLocal && callersRequireNonNul(w, m, f) && relativeReadsBounded(w, m, f) {
+			viaLocal := false
+			if _, isLocal := unparen(ix.Index).(*ast.Ident); isLocal {
+				viaLocal = true
+			}
+			if be, isBE := unparen(ix.Index).(*ast.BinaryExpr); isBE && be.Op == token.SUB {
+				if _, isC := constInt(info, be.Y); !isC {
+					viaLocal = true // input[readPosition-back] with back a local
+				}
+			}
+			if viaLocal && callersRequireNonNul(w, m, f) && relativeReadsBounded(w, m, f) {
 				return "relative read behind the cursor through a local: every value it can hold is the cursor minus an offset within the field's known lower bound, or was found non-negative on its way; every caller is inside a loop whose condition excludes NUL"
 			}
 			if be, ok := unparen(ix.Index).(*ast.BinaryExpr); ok && be.Op == token.SUB {
@@ -818,12 +856,142 @@ func callersRequireNonNul(w *World, m *lexerModel, f *FuncInfo) bool {
 					}
 				}
 			}
-			if !inLoop {
+			if !inLoop && !leftAtNul(w, m, f, c) {
 				ok = false
 			}
 		}
 	}
 	return ok && n > 0
+}
+
+// leftAtNul: the call c sits behind `if <cond true at NUL> { break | return | continue }` in the same block (or in a
+// block around it), and nothing between that test and the call moves the lexer (no call of a lexer method that
+// writes a field of the lexer, directly or through another method).
+func leftAtNul(w *World, m *lexerModel, f *FuncInfo, c *ast.CallExpr) bool {
+	pure := map[*FuncInfo]int8{}
+	var isPure func(g *FuncInfo, d int) bool
+	isPure = func(g *FuncInfo, d int) bool {
+		if g == nil || g.Decl == nil || g.Decl.Body == nil || d > 6 {
+			return false
+		}
+		switch pure[g] {
+		case 1, 2:
+			return true
+		case 3:
+			return false
+		}
+		pure[g] = 1
+		ok := true
+		ast.Inspect(g.Decl.Body, func(n ast.Node) bool {
+			switch x := n.(type) {
+			case *ast.AssignStmt:
+				for _, l := range x.Lhs {
+					if _, fld := fieldOf(m.info, l); fld != nil {
+						ok = false
+					}
+				}
+			case *ast.IncDecStmt:
+				if _, fld := fieldOf(m.info, x.X); fld != nil {
+					ok = false
+				}
+			case *ast.CallExpr:
+				if !stillCall(w, m, x, isPure, d) {
+					ok = false
+				}
+			}
+			return ok
+		})
+		if ok {
+			pure[g] = 2
+		} else {
+			pure[g] = 3
+		}
+		return ok
+	}
+	still := func(n ast.Node, before token.Pos) bool {
+		ok := true
+		ast.Inspect(n, func(x ast.Node) bool {
+			if call, isCall := x.(*ast.CallExpr); isCall && (before == token.NoPos || call.End() <= before) {
+				if !stillCall(w, m, call, isPure, 0) {
+					ok = false
+				}
+			}
+			return ok
+		})
+		return ok
+	}
+	var child ast.Node = c
+	for p := w.Parent(c); p != nil; child, p = p, w.Parent(p) {
+		switch x := p.(type) {
+		case *ast.FuncDecl, *ast.FuncLit:
+			return false
+		case *ast.ForStmt, *ast.RangeStmt:
+			// a test outside the loop says nothing about a later iteration
+			_ = x
+			return false
+		case *ast.BlockStmt:
+			idx := -1
+			for i, s := range x.List {
+				if ast.Node(s) == child {
+					idx = i
+				}
+			}
+			for i := idx - 1; i >= 0; i-- {
+				if ifs, isIf := x.List[i].(*ast.IfStmt); isIf && ifs.Init == nil && ifs.Else == nil && terminates(ifs.Body.List) {
+					if v, evalOK := m.evalBytePred(m.info, ifs.Cond, m.isChField, 0); evalOK && v {
+						// everything between the test and the call leaves the lexer where it is
+						quiet := still(x.List[idx], c.Pos())
+						for j := i + 1; j < idx && quiet; j++ {
+							quiet = still(x.List[j], token.NoPos)
+						}
+						if quiet {
+							return true
+						}
+					}
+				}
+			}
+			// the statements before this one, in this block, must not move the lexer either if we go on outwards
+			for j := 0; j < idx; j++ {
+				if !still(x.List[j], token.NoPos) {
+					return false
+				}
+			}
+		}
+	}
+	return false
+}
+
+// stillCall: the call does not move the lexer: a builtin, a conversion, a function outside the lexer type, or a
+// method of the lexer that writes none of its fields.
+func stillCall(w *World, m *lexerModel, call *ast.CallExpr, isPure func(*FuncInfo, int) bool, d int) bool {
+	if tv, ok := m.info.Types[call.Fun]; ok && (tv.IsType() || tv.IsBuiltin()) {
+		return true
+	}
+	callee := calleeOf(m.info, call)
+	if callee == nil {
+		return false
+	}
+	fn := callee
+	sig, _ := fn.Type().(*types.Signature)
+	if sig == nil || sig.Recv() == nil {
+		// a plain function: it moves the lexer only when it is handed the lexer
+		for _, a := range call.Args {
+			if t := m.info.TypeOf(a); t != nil {
+				if pt, isPtr := t.(*types.Pointer); isPtr && types.Identical(pt.Elem(), m.typ) {
+					return false
+				}
+			}
+		}
+		return true
+	}
+	rt := sig.Recv().Type()
+	if pt, isPtr := rt.(*types.Pointer); isPtr {
+		rt = pt.Elem()
+	}
+	if !types.Identical(rt, m.typ) {
+		return true
+	}
+	return isPure(w.FuncOf(callee), d+1)
 }
 
 // ---- R9: no typed nil --------------------------------------------------------
@@ -1222,6 +1390,32 @@ func relativeReadsBounded(w *World, m *lexerModel, f *FuncInfo) bool {
 			}
 			return len(x.Edges) > 0
 		case *ssa.BinOp:
+			// cursor - back, with back one of several constants chosen by a test of the cursor
+			if ph, isPhi := x.Y.(*ssa.Phi); isPhi && x.Op == token.SUB {
+				base := fieldBase(x.X)
+				if base < 0 || len(ph.Edges) == 0 {
+					return false
+				}
+				for i, e := range ph.Edges {
+					kc, isC := e.(*ssa.Const)
+					if !isC || kc.Value == nil || kc.Value.Kind() != constant.Int {
+						return false
+					}
+					k, _ := constant.Int64Val(kc.Value)
+					if k < 1 {
+						return false
+					}
+					if k <= base {
+						continue
+					}
+					pred := ph.Block().Preds[i]
+					facts := append(append([]edgeFact(nil), dominatingFacts(pred)...), edgeFacts(pred, ph.Block())...)
+					if !fieldAtLeast(x.X, k, facts) {
+						return false
+					}
+				}
+				return true
+			}
 			c, isC := x.Y.(*ssa.Const)
 			if x.Op != token.SUB || !isC || c.Value == nil || c.Value.Kind() != constant.Int {
 				return false
@@ -1260,4 +1454,51 @@ func relativeReadsBounded(w *World, m *lexerModel, f *FuncInfo) bool {
 		}
 	}
 	return n > 0
+}
+
+// fieldAtLeast: the facts say that the field read by ld (any load of the same field of the same object) is >= k.
+func fieldAtLeast(ld ssa.Value, k int64, facts []edgeFact) bool {
+	sameField := func(v ssa.Value) bool {
+		a, ok1 := ld.(*ssa.UnOp)
+		b, ok2 := v.(*ssa.UnOp)
+		if !ok1 || !ok2 || a.Op != token.MUL || b.Op != token.MUL {
+			return false
+		}
+		fa, ok1 := a.X.(*ssa.FieldAddr)
+		fb, ok2 := b.X.(*ssa.FieldAddr)
+		return ok1 && ok2 && fa.Field == fb.Field && fa.X == fb.X
+	}
+	for _, fct := range facts {
+		cond, truth := fct.cond, fct.truth
+		for {
+			u, ok := cond.(*ssa.UnOp)
+			if !ok || u.Op != token.NOT {
+				break
+			}
+			cond, truth = u.X, !truth
+		}
+		bo, ok := cond.(*ssa.BinOp)
+		if !ok || !sameField(bo.X) {
+			continue
+		}
+		var c int64
+		switch y := bo.Y.(type) {
+		case *ssa.Const:
+			if y.Value == nil || y.Value.Kind() != constant.Int {
+				continue
+			}
+			c, _ = constant.Int64Val(y.Value)
+		case *ssa.Phi:
+			// compared with the very value that is subtracted later (`if readPosition < back`): on the edge where
+			// back keeps its first value the comparison was against that value
+			continue
+		default:
+			continue
+		}
+		// F < c false / F >= c true  =>  F >= c ; F > c true / F <= c false  =>  F >= c+1
+		if (bo.Op == token.LSS && !truth && c >= k) || (bo.Op == token.GEQ && truth && c >= k) || (bo.Op == token.GTR && truth && c+1 >= k) || (bo.Op == token.LEQ && !truth && c+1 >= k) {
+			return true
+		}
+	}
+	return false
 }
